@@ -7,6 +7,24 @@ HERE = os.path.dirname(os.path.dirname(os.path.abspath(__file__)))
 
 # id -> (category, technique, level text, level note, design ref)
 CHECKS = {
+    "C01": (
+        "exploration",
+        "bounded-exhaustive enumeration of (abstract ACE, spelling, configuration) with meaning "
+        "known by construction; deviation bounding (every entry within d field deviations of three "
+        "bases, every spelling), a full 4-field product, complete one-dimensional sweeps; each case "
+        "executed on the real parser and its rendering read by an independent reader",
+        "Every ACE within 2 (quick) / 3 (thorough, on two configurations) field deviations of three "
+        "base entries over alphabets chosen from the code's shortcuts, in every accepted spelling, "
+        "on 8 / 32 configurations; the full product sport x dstaddr x dport x option tail; all 256 "
+        "protocols as number and name, all 65535 eq operands, all 33 masks x spellings x side, every "
+        "table name in both port positions followed by flag/log tokens on all 32 configurations, "
+        "sequence/whitespace spellings, the standard sub-grammar. Parsed fields are compared with "
+        "the generator's meaning (exact prefix sets, port lists, tokens) and the rendered line is "
+        "re-read by vf/refsem/reader.py and compared as a packet set.",
+        "Trusted: generator meaning-by-construction, golden tables, reader (self-tested). Entries "
+        "deviating from every base in more than d fields outside the 4-field product are not reached.",
+        "DESIGN.md 4/C01",
+    ),
     "C05": (
         "model_checking",
         "complete enumeration of wildcard masks per shape class against a bit-level oracle, plus "
